@@ -238,14 +238,35 @@ func TestStoredNodes(t *testing.T) {
 // One SaveChanges with more nodes than the persistent store's batch size (256): every raw record must still be
 // stored under the hash of its own content and the saved root must re-read completely.
 func TestLargeSave(t *testing.T) {
-	ev.Rapid(t, 3, 12)
+	ev.Rapid(t, 10, 40)
 	rapid.Check(t, func(rt *rapid.T) {
 		nkeys := gen.Uniform(rt, 260, 520, "nkeys")
 		v0 := gen.Pick(rt, []int64{0, 3, 1 << 31}, "v0")
 		mpt := mptkit.NewTrie(util.NewMemoryNodeDB(), v0, nil)
 		model := map[string][]byte{}
+		sink, sinkDir := mptkit.NewPNodeDB()
+		defer mptkit.DropDir(sinkDir)
+		var baseKeys []string
+		if gen.Chance(rt, 50, "onexistingstate") {
+			// the target store already holds an older state; the trie works on a level above it, replaces many of its
+			// nodes (over two versions) and is saved into it afterwards
+			g := mptkit.NewTrie(sink, v0, nil)
+			for i := 0; i < nkeys/3; i++ {
+				p := fmt.Sprintf("%02x%04x%02x", gen.Uniform(rt, 0, 255, "ga"), i*7919%65536, gen.Uniform(rt, 0, 255, "gb"))
+				v := []byte(fmt.Sprintf("base-%d", i))
+				if _, err := g.Insert(util.Path(p), mptkit.Val(v)); err != nil {
+					rt.Fatalf("HARNESS: insert: %v", err)
+				}
+				model[p] = v
+				baseKeys = append(baseKeys, p)
+			}
+			mpt = mptkit.NewTrie(util.NewLevelNodeDB(util.NewMemoryNodeDB(), sink, false), v0, g.GetRoot())
+		}
 		for i := 0; i < nkeys; i++ {
 			p := fmt.Sprintf("%02x%04x%02x", gen.Uniform(rt, 0, 255, "a"), i*7919%65536, gen.Uniform(rt, 0, 255, "b"))
+			if len(baseKeys) > 0 && i%2 == 0 {
+				p = baseKeys[(i/2)%len(baseKeys)]
+			}
 			v := []byte(fmt.Sprintf("value-%d-%d", i, gen.Uniform(rt, 0, 99, "v")))
 			if _, err := mpt.Insert(util.Path(p), mptkit.Val(v)); err != nil {
 				rt.Fatalf("HARNESS: insert: %v", err)
@@ -255,8 +276,6 @@ func TestLargeSave(t *testing.T) {
 				mpt.SetVersion(util.Sequence(v0 + 1))
 			}
 		}
-		sink, sinkDir := mptkit.NewPNodeDB()
-		defer mptkit.DropDir(sinkDir)
 		changes := mpt.GetChangeCount()
 		if err := mpt.SaveChanges(context.Background(), sink, false); err != nil {
 			rt.Fatalf("SaveChanges of %d nodes: %v", changes, err)
